@@ -87,7 +87,9 @@ INBOUND = [
     "if (valid == STUN_VALIDATION_UNMATCHED_RESPONSE) { return TRUE; } if (valid != STUN_VALIDATION_SUCCESS) { return FALSE; }",
     "if (trans_found != TRUE) trans_found = priv_map_reply_to_discovery_request (agent, &req, from); if (trans_found != TRUE) trans_found = priv_map_reply_to_relay_request (agent, &req);",
 ]
-GDONE = ["if (agent->discovery_timer_source == NULL && !upnp_running && !dns_resolution_ongoing) agent_signal_gathering_done (agent); }"]
+# (the three other conjuncts are about UPnP and outstanding name lookups; the model's scope is servers given by address with no lookup outstanding,
+# where they hold - lookups that fail or finish in either order are exercised by the simulator: fix a7c512a)
+GDONE = ["if (agent->discovery_timer_source == NULL && !upnp_running && !dns_resolution_ongoing && agent->stun_resolving_list == NULL) agent_signal_gathering_done (agent); }"]
 SIGDONE = ["for (i = agent->streams; i; i = i->next) { NiceStream *stream = i->data; if (stream->gathering) { stream->gathering = FALSE; agent_queue_signal (agent, signals[SIGNAL_CANDIDATE_GATHERING_DONE], stream->id); } } }"]
 VALIDATE = [
     "if (sent_id_idx == STUN_AGENT_MAX_SAVED_IDS) { return STUN_VALIDATION_UNMATCHED_RESPONSE; }",
